@@ -29,6 +29,7 @@ FUNCS = [
     ("artifactReplace", "framework/artifact/artifact.py", "Artifact", "replace"),
     ("artifactClearCache", "framework/artifact/artifact.py", "Artifact", "clear_cache"),
     ("streamKey", "framework/randomness/stream.py", "RandomnessStream", "_key"),
+    ("streamGetDraw", "framework/randomness/stream.py", "RandomnessStream", "get_draw"),
     ("machineTransition", "framework/state_machine.py", "Machine", "transition"),
     ("engineStep", "framework/engine.py", "SimulationContext", "step"),
     ("engineInitializeSimulants", "framework/engine.py", "SimulationContext", "initialize_simulants"),
